@@ -70,13 +70,13 @@ PROPS = {
                 engines=SHIELD["engines"] + [chain("payout", 64, 640, ops=120, tops=200), UBDQ, REIMB],
                 assumptions=SHIELD["assumptions"] + [UBDQ_ASSUME, REIMB_ASSUME,
         "'taken from its bonded or unbonding stake': in the shield model the coins move from the staking pools in one step; how the code takes them (split, pro-rata loop, shares rounded up, unbonding entries) is Model/Payout.lean, run against the real keeper's MakePayoutByProviderDelegations by the engine 'payout' on states reached by shield histories, after random slashes and undelegations in a discarded cache context"]),
-    "C05": dict(SHIELD, lean=["Shentu.Props.C05", "Shentu.Props.C05H", "Shentu.Props.ShieldTie"]),
+    "C05": dict(SHIELD, lean=["Shentu.Props.C05", "Shentu.Props.C05H", "Shentu.Props.ShieldTie"], engines=SHIELD["engines"] + [SHIELDPARAMS]),
     "C06": dict(SHIELD, lean=["Shentu.Props.C06", "Shentu.Props.ShieldTie"], assumptions=SHIELD["assumptions"] + [
         "the converse (a funded purchase meeting the conditions is accepted) is proved for purchases whose fee or stake does not truncate to zero (amount x rate >= 1 unit); with the default minimum purchase of 50 CTK this always holds; below it the module answers ErrNoShield"]),
     "C07": dict(SHIELD, lean=["Shentu.Props.C07", "Shentu.Props.ShieldTie"], engines=SHIELD["engines"] + [SHIELDPARAMS]),
     "C08": {
         "lean": ["Shentu.Props.C08", "Shentu.Props.C04b", "Shentu.Props.C04c", "Shentu.Props.C04r", "Shentu.Props.C01m"],
-        "engines": [chain("shield", 96, 960, ops=240, tops=400), chain("oracle", 48, 480, ops=120), chain("gov", 48, 480, ops=120), chain("staking", 32, 320, ops=150), chain("bankvm", 32, 320, ops=100), MINT, REIMB, ORACLEPARAMS, GOVPARAMS],
+        "engines": [chain("shield", 96, 960, ops=240, tops=400), chain("oracle", 48, 480, ops=120), chain("gov", 48, 480, ops=120), chain("staking", 32, 320, ops=150), chain("bankvm", 32, 320, ops=100), MINT, REIMB, ORACLEPARAMS, GOVPARAMS, SHIELDPARAMS],
         "trusted": SDK_TRUST + ["a panic inside BeginBlock/EndBlock of the real application is caught by the harness (recover) and reported with its site; the begin/end-blockers of SDK modules (distribution, mint, slashing, staking) run for real in every history but are not modelled",
                                 "in the models a Go panic is the error value built by `panicE`; the theorems show that the modelled block-level functions return no error on states satisfying invariants that are proved to be preserved by every operation"],
         "assumptions": ["oracle parameters epsilon1, epsilon2 > 0 (the hypothesis EndInv of C08.oracle_endBlock_never_halts; the oracle histories keep the parameters constant): discharged against the code by the engine 'oracleparams' — the real parameter-change handler must refuse every non-positive epsilon, and under every value it accepts the real end-blocker is run on the task that makes the epsilon the whole divisor (repaired in /repo: before the repair zero was accepted and the end-blocker divided by zero)", "shield protection period > 0 (validated by the module)",
